@@ -2,25 +2,8 @@
 (* Constants of MC_XMBOX / TraceXMBOX that a TLC configuration file cannot spell (sets of   *)
 (* records, tuples).  This file holds the QUICK-tier alphabets; harness/xmbox.py regenerates *)
 (* it in the scratch directory of every run from its TIERS table (same text for quick).      *)
-K_AllKinds == {
-    [h |-> "plain", b |-> "text", e |-> "lf", f |-> "std"],
-    [h |-> "none", b |-> "empty", e |-> "lf", f |-> "std"],
-    [h |-> "empty", b |-> "fromline", e |-> "lf", f |-> "std"],
-    [h |-> "fold", b |-> "text", e |-> "lf", f |-> "std"],
-    [h |-> "tabs", b |-> "eight", e |-> "lf", f |-> "std"],
-    [h |-> "enc", b |-> "gtfrom", e |-> "lf", f |-> "std"],
-    [h |-> "eight", b |-> "text", e |-> "lf", f |-> "std"],
-    [h |-> "long", b |-> "text", e |-> "lf", f |-> "std"],
-    [h |-> "lower", b |-> "nonl", e |-> "lf", f |-> "std"],
-    [h |-> "dup", b |-> "text", e |-> "crlf", f |-> "std"],
-    [h |-> "tight", b |-> "fromline", e |-> "crlf", f |-> "std"],
-    [h |-> "nohdr", b |-> "text", e |-> "lf", f |-> "std"],
-    [h |-> "plain", b |-> "rawfrom", e |-> "lf", f |-> "std"],
-    [h |-> "blank", b |-> "nonl", e |-> "crlf", f |-> "tz"]}
-K_SmallKinds == {
-    [h |-> "plain", b |-> "text", e |-> "lf", f |-> "std"],
-    [h |-> "empty", b |-> "fromline", e |-> "lf", f |-> "std"],
-    [h |-> "lower", b |-> "nonl", e |-> "lf", f |-> "std"]}
+K_AllKinds == {[h |-> "plain", b |-> "text", e |-> "lf", f |-> "std"], [h |-> "none", b |-> "empty", e |-> "lf", f |-> "std"], [h |-> "empty", b |-> "fromline", e |-> "lf", f |-> "std"], [h |-> "fold", b |-> "text", e |-> "lf", f |-> "std"], [h |-> "tabs", b |-> "eight", e |-> "lf", f |-> "std"], [h |-> "enc", b |-> "gtfrom", e |-> "lf", f |-> "std"], [h |-> "eight", b |-> "text", e |-> "lf", f |-> "std"], [h |-> "long", b |-> "text", e |-> "lf", f |-> "std"], [h |-> "lower", b |-> "nonl", e |-> "lf", f |-> "std"], [h |-> "dup", b |-> "text", e |-> "crlf", f |-> "std"], [h |-> "tight", b |-> "fromline", e |-> "crlf", f |-> "std"], [h |-> "nohdr", b |-> "text", e |-> "lf", f |-> "std"], [h |-> "plain", b |-> "rawfrom", e |-> "lf", f |-> "std"], [h |-> "blank", b |-> "nonl", e |-> "crlf", f |-> "tz"]}
+K_SmallKinds == {[h |-> "plain", b |-> "text", e |-> "lf", f |-> "std"], [h |-> "empty", b |-> "fromline", e |-> "lf", f |-> "std"], [h |-> "lower", b |-> "nonl", e |-> "lf", f |-> "std"]}
 K_FolderPlaces == {"alt"}
 K_FolderOrds == {"asc"}
 K_OrderPlaces == {"new", "alt"}
